@@ -17,6 +17,10 @@
 // Protocol (fields separated by one space):
 //
 //	sched <K> <step>;<step>;…      K = number of backend addresses (1..6)
+//	schedph <K> <step>;…           the same, but every upstream's dial address is a request placeholder
+//	                               ({http.request.header.X-V<case>-<key>}) that each request fills in through
+//	                               a header of its own; only here a request may carry an undialable value
+//	                               (N:<G|P>:<k>:<b>); no active health checks (modes 2..7)
 //	stress <N> <seed>              un-forced concurrency: N requests with scripted fates at once plus a
 //	                               concurrent reload (stress.go); answer = the interleaving-independent totals
 //	                               `n= ok= err= panic= inc= dec= fail= forget= end=<in-flight>/<fails>`
@@ -38,6 +42,10 @@
 //	B:<keys>                          a load that fails in Provision before the upstreams are set up (its Cleanup must not touch the pool)
 //	C                                 unload the current configuration (no successor)
 //	N:<G|P>                           new GET / POST request on the current configuration
+//	N:<G|P>:<k>:<b>                   (schedph) a request whose dial placeholder of upstream k expands to a
+//	                                  named port (b=1), a port range (2), malformed unix permission bits (3):
+//	                                  when k is selected, fillDialInfo fails, the request is answered with an
+//	                                  error without being sent, and no counter may move
 //	O:<r>:<ok|e5|rst|hup|pan|her>     backend's answer to parked request r: 200 | 500 | close
 //	                                  without answering | close in mid-body | 200 + response
 //	                                  handler panics | 200 + response handler returns an error
@@ -339,6 +347,8 @@ type step struct {
 	dyn    bool  // Y step: the upstreams come from a dynamic source
 	skeys  []int // Y step: static upstreams (fallback while the source fails)
 	ws     bool  // N step: the request asks for a protocol upgrade (websocket)
+	badKey int   // N step: the upstream whose dial placeholder this request cannot fill ...
+	badB   int   // ... and how: 1 named port, 2 port range, 3 malformed unix permission bits (0 = all placeholders fine)
 	fail   bool  // E step: the source starts (true) / stops failing
 	lat    bool  // passive unhealthy_latency configured (latencyLimit)
 	act    bool  // active health checks run every few milliseconds (thresholds out of reach: they must not change anything)
@@ -486,6 +496,17 @@ func parseStep(s string, K int) (st step, ok bool) {
 	case 'C':
 		return st, len(f) == 1
 	case 'N':
+		if len(f) == 4 {
+			// N:<G|P>:<k>:<b>: the dial placeholder of upstream k expands, for this request, to a
+			// named port (1), a port range (2), a unix socket with malformed permission bits (3)
+			kk, ok1 := num(f[2])
+			b, ok2 := num(f[3])
+			if !ok1 || !ok2 || kk >= K || b < 1 || b > 3 || (f[1] != "G" && f[1] != "P") {
+				return st, false
+			}
+			st.get, st.badKey, st.badB = f[1] == "G", kk, b
+			return st, true
+		}
 		if len(f) != 2 || (f[1] != "G" && f[1] != "P" && f[1] != "W") {
 			return st, false
 		}
@@ -534,6 +555,20 @@ func parseStep(s string, K int) (st step, ok bool) {
 		return st, ok && st.n >= 1 && st.n <= 50
 	}
 	return st, false
+}
+
+// phRules: requests with an undialable placeholder exist only in `schedph` schedules; active
+// health checks (modes 2..7) cannot use placeholder addresses.
+func phRules(steps []step, ph bool) bool {
+	for _, st := range steps {
+		if st.op == 'N' && st.badB != 0 && !ph {
+			return false
+		}
+		if ph && (st.op == 'L') && (st.act || st.areal) {
+			return false
+		}
+	}
+	return true
 }
 
 func parseSched(f []string) (K int, steps []step, ok bool) {
@@ -628,10 +663,11 @@ type reqSt struct {
 	done      bool
 	since     time.Time // when it was parked
 	w         *syncWriter
-	ws        bool // it asked for a protocol upgrade
-	wsOpen    bool // …and its upgraded connection is open
-	streaming bool // header and first part of the body have arrived, the rest is pending
-	aged      bool // it was already parked while a slow answer was being waited for: its round trip is slow too
+	ws        bool   // it asked for a protocol upgrade
+	wsOpen    bool   // …and its upgraded connection is open
+	streaming bool   // header and first part of the body have arrived, the rest is pending
+	aged      bool   // it was already parked while a slow answer was being waited for: its round trip is slow too
+	errText   string // the error ServeHTTP returned
 }
 
 type reqEvent struct {
@@ -640,6 +676,7 @@ type reqEvent struct {
 	key     int
 	cmd     chan string
 	result  string
+	errText string
 }
 
 type backend struct {
@@ -664,6 +701,8 @@ type kase struct {
 	p        *prop
 	dir      string
 	K        int
+	ph       bool  // every dial address is a request placeholder (schedph)
+	id       int64 // unique per case in this process
 	U        time.Duration
 	anchor   time.Time
 	tick     int
@@ -734,7 +773,17 @@ func (k *kase) onCount(h *reverseproxy.Host, kind int, delta int, result int64) 
 
 func (k *kase) sock(key int) string { return filepath.Join(k.dir, fmt.Sprintf("h%d.sock", key)) }
 
-func (k *kase) dial(key int) string { return "unix/" + k.sock(key) }
+// dial is the dial address of upstream `key` as configured: the socket itself, or — in a `schedph`
+// schedule — a request placeholder that every request of the case fills in through a header of
+// its own (good: the socket; undialable: a named port, a port range, malformed permission bits).
+func (k *kase) dial(key int) string {
+	if k.ph {
+		return "{http.request.header." + k.dialHeader(key) + "}"
+	}
+	return "unix/" + k.sock(key)
+}
+
+func (k *kase) dialHeader(key int) string { return fmt.Sprintf("X-V%d-%d", k.id, key) }
 
 func (b *backend) up() error {
 	l, err := net.Listen("unix", b.path)
@@ -991,7 +1040,7 @@ func (k *kase) handlerJSON(st step, bad bool) []byte {
 // as a JSON object; ok=false if the step cannot be written as Caddyfile (an upstream's own
 // max_requests; passive checks present but with no option set).
 func (k *kase) viaCaddyfile(st step) (map[string]any, bool) {
-	if st.dyn || st.act || st.x > 0 || (st.p && st.d == 0 && st.m == 0 && st.q == 0 && st.s == 0 && !st.lat) {
+	if k.ph || st.dyn || st.act || st.x > 0 || (st.p && st.d == 0 && st.m == 0 && st.q == 0 && st.s == 0 && !st.lat) {
 		return nil, false
 	}
 	var b strings.Builder
@@ -1238,6 +1287,7 @@ func (k *kase) waitReq(r *reqSt) string {
 				return "P" + strconv.Itoa(e.key)
 			}
 			r.parked, r.done = false, true
+			r.errText = e.errText
 			return e.result
 		case <-timeout:
 			k.infra = fmt.Sprintf("request %d neither parked nor returned", r.id)
@@ -1295,7 +1345,7 @@ func (w *syncWriter) Hijack() (net.Conn, *bufio.ReadWriter, error) {
 	return srv, bufio.NewReadWriter(bufio.NewReader(srv), bufio.NewWriter(srv)), nil
 }
 
-func (k *kase) newReq(get, ws bool) string {
+func (k *kase) newReq(get, ws bool, badKey, badB int) string {
 	c := k.cur
 	r := &reqSt{id: len(k.reqs), cfg: c}
 	k.reqs = append(k.reqs, r)
@@ -1307,6 +1357,22 @@ func (k *kase) newReq(get, ws bool) string {
 	r.cancel = cancel
 	req := httptest.NewRequest(method, "http://c09.test/r", nil).WithContext(ctx)
 	req.Header.Set("X-Rid", strconv.Itoa(r.id))
+	if k.ph {
+		for key := 0; key < k.K; key++ {
+			v := "unix/" + k.sock(key)
+			if badB != 0 && key == badKey {
+				switch badB {
+				case 1:
+					v = "backend.internal:http"
+				case 2:
+					v = "127.0.0.1:8000-8010"
+				default:
+					v += "|9" // permission bits that are no octal number
+				}
+			}
+			req.Header.Set(k.dialHeader(key), v)
+		}
+	}
 	if ws {
 		r.ws = true
 		req.Header.Set("Connection", "Upgrade")
@@ -1317,16 +1383,16 @@ func (k *kase) newReq(get, ws bool) string {
 	repl := caddy.NewReplacer()
 	req = caddyhttp.PrepareRequest(req, repl, w, &caddyhttp.Server{})
 	go func() {
-		res := "ok"
+		res, errText := "ok", ""
 		defer func() {
 			if rec := recover(); rec != nil {
 				res = "panic"
 			}
-			k.ev <- reqEvent{rid: r.id, result: res}
+			k.ev <- reqEvent{rid: r.id, result: res, errText: errText}
 		}()
 		err := c.h.ServeHTTP(w, req, caddyhttp.HandlerFunc(func(http.ResponseWriter, *http.Request) error { return nil }))
 		if err != nil {
-			res = "err"
+			res, errText = "err", err.Error()
 		}
 	}()
 	return k.waitReq(r)
@@ -1533,11 +1599,12 @@ func (k *kase) fail(class, what string) {
 func (k *kase) tag(t string) { k.tags[t] = true }
 
 // runSched executes the schedule; ok=false means the line is (semantically) malformed.
-func (p *prop) runSched(K int, src stepSource, U time.Duration, cf bool) (impl string, k *kase, ok bool) {
-	k = &kase{p: p, K: K, U: U, cf: cf, ev: make(chan reqEvent, 64),
+func (p *prop) runSched(K int, src stepSource, U time.Duration, cf, ph bool) (impl string, k *kase, ok bool) {
+	k = &kase{p: p, K: K, U: U, cf: cf, ph: ph, ev: make(chan reqEvent, 64),
 		objIdx: map[*reverseproxy.Host]int{}, tags: map[string]bool{}}
 	k.cond = sync.NewCond(&k.mu)
-	k.dir = filepath.Join(p.root, fmt.Sprintf("k%d", p.nextDir.Add(1)))
+	k.id = p.nextDir.Add(1)
+	k.dir = filepath.Join(p.root, fmt.Sprintf("k%d", k.id))
 	if err := os.MkdirAll(k.dir, 0o755); err != nil {
 		k.infra = err.Error()
 		return "infra", k, true
@@ -1588,7 +1655,10 @@ func (p *prop) runSched(K int, src stepSource, U time.Duration, cf bool) (impl s
 				break
 			}
 			moved = k.cur
-			ev = k.newReq(st.get, st.ws)
+			ev = k.newReq(st.get, st.ws, st.badKey, st.badB)
+			if st.badB != 0 {
+				k.tag("undialable-placeholder")
+			}
 			if st.ws {
 				k.tag("upgrade-request")
 			}
@@ -1870,15 +1940,18 @@ func (p *prop) run(line string) core.Outcome {
 		return core.Outcome{Impl: "bad-op", Tags: []string{"bad-op", "trivial"}}
 	}
 	switch f[0] {
-	case "sched", "schedcf":
+	case "sched", "schedcf", "schedph":
 		K, steps, ok := parseSched(f)
+		if ok && !phRules(steps, f[0] == "schedph") {
+			ok = false
+		}
 		if !ok {
 			return core.Outcome{Impl: "bad-op", Tags: []string{"bad-op", "trivial"}}
 		}
 		if err := p.init(); err != nil {
 			return core.Outcome{Impl: "infra", Tags: []string{"infra"}, Failures: []core.Failure{{Case: line, Class: "harness-infra", What: err.Error()}}}
 		}
-		o, _ := p.execSched(K, &replaySource{steps: steps}, 0, f[0] == "schedcf")
+		o, _ := p.execSched(K, &replaySource{steps: steps}, 0, f[0] == "schedcf", f[0] == "schedph")
 		for i := range o.Failures {
 			o.Failures[i].Case = line
 		}
@@ -1896,7 +1969,7 @@ const baseTick = 40 * time.Millisecond
 // execSched runs a schedule, re-running it (as a replay of the steps already chosen) with a
 // longer tick when the machine was too slow for the discrete clock to be trustworthy.
 // It returns the outcome and the steps that were executed.
-func (p *prop) execSched(K int, src stepSource, minAttempt int, cf bool) (core.Outcome, []step) {
+func (p *prop) execSched(K int, src stepSource, minAttempt int, cf, ph bool) (core.Outcome, []step) {
 	U := baseTick << minAttempt
 	noisy := 0 // attempts spoilt by scheduler noise (tryAgain race, a quick answer that took too long)
 	for attempt := minAttempt; ; attempt++ {
@@ -1906,7 +1979,7 @@ func (p *prop) execSched(K int, src stepSource, minAttempt int, cf bool) (core.O
 		} else {
 			p.alone.RLock()
 		}
-		impl, k, ok := p.runSched(K, src, U, cf)
+		impl, k, ok := p.runSched(K, src, U, cf, ph)
 		if noisy >= 2 {
 			p.alone.Unlock()
 		} else {
@@ -1916,7 +1989,15 @@ func (p *prop) execSched(K int, src stepSource, minAttempt int, cf bool) (core.O
 		p.stats.cases++
 		p.stats.Unlock()
 		if !ok {
-			return core.Outcome{Impl: "bad-op", Tags: []string{"bad-op-semantic", "trivial"}}, k.done
+			// a step that is impossible in the state the implementation is in: an invalid schedule —
+			// or the implementation left the expected path earlier, and then the oracle's findings
+			// up to that step are the answer
+			o := core.Outcome{Impl: "bad-op", Tags: []string{"bad-op-semantic", "trivial"}}
+			if len(k.failures) > 0 && !k.raced && !k.late {
+				p.failed.Add(1)
+				o.Failures = k.failures
+			}
+			return o, k.done
 		}
 		if k.raced && noisy < 8 {
 			noisy++
